@@ -1,10 +1,13 @@
 package main
 
 import (
+	"bytes"
 	"context"
 	"encoding/json"
 	"fmt"
 	"math/big"
+	"net/http"
+	"net/http/httptest"
 	"runtime/debug"
 	"strings"
 	"sync"
@@ -13,10 +16,15 @@ import (
 
 	"github.com/ThreeDotsLabs/watermill/message"
 	ledger "github.com/formancehq/ledger/internal"
+	"github.com/formancehq/ledger/internal/api"
 	"github.com/formancehq/ledger/internal/bus"
 	"github.com/formancehq/ledger/internal/engine/command"
 	"github.com/formancehq/ledger/internal/machine"
+	"github.com/formancehq/ledger/internal/opentelemetry/metrics"
+	"github.com/formancehq/ledger/internal/verif/apiback"
 	"github.com/formancehq/ledger/internal/verifhook"
+	"github.com/formancehq/stack/libs/go-libs/auth"
+	"github.com/formancehq/stack/libs/go-libs/health"
 	"github.com/formancehq/stack/libs/go-libs/metadata"
 )
 
@@ -43,6 +51,8 @@ type Op struct {
 	// parameters
 	DryRun bool   `json:"dry_run,omitempty"`
 	IK     string `json:"ik,omitempty"`
+	// Via: "" = Commander call, "v2" / "v1" = through the real HTTP handlers (posting-mode requests)
+	Via string `json:"via,omitempty"`
 	// CancelAt > 0: the request's context is cancelled when its client reaches its CancelAt-th hook point
 	CancelAt int `json:"cancel_at_hook,omitempty"`
 	// what the script grants (for the C02 oracle): account -> "unbounded" or decimal bound
@@ -59,12 +69,12 @@ type PostingJ struct {
 func (p PostingJ) big() *big.Int { n, _ := new(big.Int).SetString(p.Amount, 10); return n }
 
 type Result struct {
-	OK    bool     `json:"ok"`
-	Class string   `json:"class,omitempty"`
-	Err   string   `json:"err,omitempty"`
-	TxID  string   `json:"txid,omitempty"`
-	Tx    *TxJ     `json:"tx,omitempty"`
-	Panic string   `json:"panic,omitempty"`
+	OK    bool   `json:"ok"`
+	Class string `json:"class,omitempty"`
+	Err   string `json:"err,omitempty"`
+	TxID  string `json:"txid,omitempty"`
+	Tx    *TxJ   `json:"tx,omitempty"`
+	Panic string `json:"panic,omitempty"`
 	raw   *ledger.Transaction
 }
 
@@ -227,6 +237,7 @@ func NewEnv() *Env {
 
 type Generation struct {
 	n    int
+	http http.Handler
 	cmd  *command.Commander
 	dead atomic.Bool
 	why  atomic.Value
@@ -241,6 +252,7 @@ func (e *Env) NewGeneration(workerCtx context.Context) (*Generation, error) {
 	if err := g.cmd.Init(context.Background()); err != nil {
 		return nil, err
 	}
+	g.http = api.NewRouter(&apiback.MonBackend{Engine: g.cmd}, health.NewHealthController(nil), metrics.NewNoOpRegistry(), auth.NewNoAuth(), false)
 	go func() {
 		defer func() {
 			if p := recover(); p != nil {
@@ -321,7 +333,8 @@ func (op Op) target() any {
 }
 
 // execOp: one client call on the commander; a panic escaping the call is part of the result.
-func execOp(ctx context.Context, cmd *command.Commander, op Op) (res *Result) {
+func execOp(ctx context.Context, g *Generation, op Op) (res *Result) {
+	cmd := g.cmd
 	defer func() {
 		if p := recover(); p != nil {
 			st := string(debug.Stack())
@@ -334,6 +347,9 @@ func execOp(ctx context.Context, cmd *command.Commander, op Op) (res *Result) {
 	params := command.Parameters{DryRun: op.DryRun, IdempotencyKey: op.IK}
 	var tx *ledger.Transaction
 	var err error
+	if op.Via != "" && op.Kind == "postings" {
+		return execHTTP(ctx, g, op)
+	}
 	switch op.Kind {
 	case "script", "postings":
 		tx, err = cmd.CreateTransaction(ctx, params, op.runScript())
@@ -408,7 +424,7 @@ func (e *Env) RunPhaseControlled(s *Scheduler, plans []ClientPlan) PhaseResult {
 					octx, cancel = context.WithCancel(ctx)
 					t.cancelAfter, t.cancelFn = op.CancelAt, cancel
 				}
-				res := execOp(octx, g.cmd, op)
+				res := execOp(octx, g, op)
 				t.cancelAfter, t.cancelFn = 0, nil
 				rec.LogsAtRet, rec.MsgsAtRet = e.counts()
 				e.hist.ret(rec, res, e.step.Add(1))
@@ -446,7 +462,7 @@ func (e *Env) RunPhaseFree(seed uint64, plans []ClientPlan, timeout time.Duratio
 					d := time.Duration(f.rnd()%uint64(op.CancelAt*120)) * time.Microsecond
 					go func() { time.Sleep(d); cancel() }()
 				}
-				res := execOp(octx, g.cmd, op)
+				res := execOp(octx, g, op)
 				e.hist.ret(rec, res, e.step.Add(1))
 			}
 		}()
@@ -460,4 +476,83 @@ func (e *Env) RunPhaseFree(seed uint64, plans []ClientPlan, timeout time.Duratio
 		dumpStacks()
 		return "clients did not finish within " + timeout.String()
 	}
+}
+
+// execHTTP: a posting-mode request through the real v1 / v2 handler (JSON decoding, validation, error mapping).
+func execHTTP(ctx context.Context, g *Generation, op Op) *Result {
+	type posting struct {
+		Source      string          `json:"source"`
+		Destination string          `json:"destination"`
+		Amount      json.RawMessage `json:"amount"`
+		Asset       string          `json:"asset"`
+	}
+	body := map[string]any{"metadata": op.Meta}
+	var ps []posting
+	for _, p := range op.Postings {
+		ps = append(ps, posting{p.Source, p.Destination, json.RawMessage(p.Amount), p.Asset})
+	}
+	body["postings"] = ps
+	if op.Reference != "" {
+		body["reference"] = op.Reference
+	}
+	if op.Timestamp != "" {
+		body["timestamp"] = op.Timestamp
+	}
+	b, _ := json.Marshal(body)
+	target := "/api/ledger/v2/ledger0/transactions"
+	if op.Via == "v1" {
+		target = "/api/ledger/ledger0/transactions"
+	}
+	q := ""
+	if op.DryRun {
+		q = map[string]string{"v2": "?dryRun=true", "v1": "?preview=true"}[op.Via]
+	}
+	req, err := http.NewRequestWithContext(ctx, "POST", "http://ledger.test"+target+q, bytes.NewReader(b))
+	if err != nil {
+		return &Result{Class: "other", Err: err.Error()}
+	}
+	req.Header.Set("Content-Type", "application/json")
+	if op.IK != "" {
+		req.Header.Set("Idempotency-Key", op.IK)
+	}
+	w := httptest.NewRecorder()
+	g.http.ServeHTTP(w, req)
+	if w.Code >= 200 && w.Code < 300 {
+		var tx ledger.Transaction
+		if op.Via == "v1" {
+			var out struct {
+				Data []struct {
+					ledger.Transaction
+					TxID *big.Int `json:"txid"`
+				} `json:"data"`
+			}
+			if err := json.Unmarshal(w.Body.Bytes(), &out); err != nil || len(out.Data) != 1 {
+				return &Result{Class: "other", Err: "unreadable v1 response: " + firstLine(w.Body.String())}
+			}
+			tx = out.Data[0].Transaction
+			tx.ID = out.Data[0].TxID
+		} else {
+			var out struct {
+				Data ledger.Transaction `json:"data"`
+			}
+			if err := json.Unmarshal(w.Body.Bytes(), &out); err != nil {
+				return &Result{Class: "other", Err: "unreadable v2 response: " + firstLine(w.Body.String())}
+			}
+			tx = out.Data
+		}
+		if tx.ID == nil {
+			return &Result{Class: "other", Err: "response without transaction id: " + firstLine(w.Body.String())}
+		}
+		return &Result{OK: true, raw: &tx, Tx: txJ(&tx), TxID: tx.ID.String()}
+	}
+	var e struct {
+		ErrorCode    string `json:"errorCode"`
+		ErrorMessage string `json:"errorMessage"`
+	}
+	_ = json.Unmarshal(w.Body.Bytes(), &e)
+	cls := map[string]string{"INSUFFICIENT_FUND": "insufficient", "CONFLICT": "conflict", "VALIDATION": "validation", "COMPILATION_FAILED": "compile", "SCRIPT_COMPILATION_FAILED": "compile", "NO_POSTINGS": "no-postings", "INTERNAL": "other"}[e.ErrorCode]
+	if cls == "" {
+		cls = "http-" + fmt.Sprint(w.Code)
+	}
+	return &Result{Class: cls, Err: firstLine(e.ErrorCode + ": " + e.ErrorMessage)}
 }
